@@ -21,10 +21,58 @@ def log(*a):
     print(*a, flush=True)
 
 
-def sh(cmd, cwd=None, env=None, timeout=None, check=True, capture=True):
-    p = subprocess.run(cmd, cwd=cwd, env=env, timeout=timeout, shell=isinstance(cmd, str),
-                       stdout=subprocess.PIPE if capture else None, stderr=subprocess.STDOUT if capture else None,
-                       text=True)
+class Hang(Exception):
+    """A driver ended itself (exit status 4) because a call into the real code did not return, twice in a row at the same place."""
+
+
+class Crash(Exception):
+    """A driver died with a Go panic / fatal error whose innermost non-runtime frame is in /repo: the real code crashed."""
+
+
+def _real_code_crash(text):
+    m = re.search(r"^(panic:|fatal error:).*$", text, re.M)
+    if not m:
+        return None
+    tail = text[m.start():]
+    for fm in re.finditer(r"^\t(/\S+\.go):(\d+)", tail, re.M):
+        f = fm.group(1)
+        if "/go/src/" in f or "/golang" in f or "/veriftools/go" in f or f.startswith("/usr/"):   # runtime and standard library frames
+            continue
+        if f.startswith("/repo/"):
+            return "%s at %s:%s" % (m.group(0)[:300], f, fm.group(2)), tail[:6000]
+        return None                                                                                 # innermost frame is the harness's: not a verdict
+    return None
+
+
+def sh(cmd, cwd=None, env=None, timeout=None, check=True, capture=True, hang_ok=False):
+    errfile = None
+    if isinstance(cmd, str):
+        m = re.search(r"2>(\S+)", cmd)
+        if m and m.group(1) == "/dev/null":          # keep the noise out of stdout, but keep it: a crash of the real code must be seen
+            errfile = os.path.join(BUILD, "work", "stderr-%d.txt" % os.getpid())
+            os.makedirs(os.path.dirname(errfile), exist_ok=True)
+            cmd = cmd.replace("2>/dev/null", "2>" + errfile)
+        elif m:
+            errfile = m.group(1)
+
+    def once():
+        return subprocess.run(cmd, cwd=cwd, env=env, timeout=timeout, shell=isinstance(cmd, str),
+                              stdout=subprocess.PIPE if capture else None, stderr=subprocess.STDOUT if capture else None, text=True)
+    p = once()
+    if p.returncode not in (0, 4):
+        text = p.stdout or ""
+        if errfile and os.path.exists(errfile):
+            text += open(errfile, errors="replace").read()
+        c = _real_code_crash(text)
+        if c:
+            raise Crash(c[0] + "\n" + c[1])
+    if p.returncode == 4 and not hang_ok:
+        # the driver's watchdog fired (harness/trace): only a hang that happens again on a second run is a behaviour of the code
+        first = (p.stdout or "")[-1500:]
+        log("driver ended itself after a call that did not return; running it once more: %s" % first.strip()[-300:])
+        p = once()
+        if p.returncode == 4:
+            raise Hang("the real code did not return from a call (driver watchdog, reproduced on a second run): %s\ncommand: %s" % ((p.stdout or first).strip()[-800:], cmd))
     if check and p.returncode != 0:
         raise Infra("command failed (%d): %s\n%s" % (p.returncode, cmd, (p.stdout or "")[-4000:]))
     return p
